@@ -52,6 +52,7 @@ class SplitRequest(Exception):
 # ------------------------------------------------------------------------------------------------ types
 PRIM = ("prim",)
 UNKNOWN = ("unknown",)
+PUREOBJ = ("pureobj",)     # an object handed out by a library listed in PURE_MODULES (a logger, a compiled pattern, ...)
 
 
 def Inst(c):
@@ -180,7 +181,8 @@ class AV:
         return self.ty == PRIM and self.func is None
 
 
-PURE_MODULES = ("pydantic", "builtins", "math", "typing", "enum", "abc", "functools", "copy")
+PURE_MODULES = ("pydantic", "builtins", "math", "typing", "enum", "abc", "functools", "copy", "loguru", "logging",
+                "warnings", "operator", "json", "decimal", "fractions", "numbers", "statistics", "bisect", "heapq_readonly")
 INLINE_MODULES = ("simaple.",)
 LIST_MUTATORS = {"append", "extend", "insert", "remove", "clear", "sort", "reverse", "add", "discard", "update",
                  "setdefault", "popitem", "__setitem__", "__delitem__"}
@@ -430,6 +432,10 @@ class Lowerer:
             v = self.tmp("copy")
             self.emit(("copy", v, m.var))
             return AV(var=v, ty=m.ty, exact=m.exact)
+        if qual == "copy.copy":
+            if args[0].is_prim():
+                return AV(ty=PRIM)
+            return self.model_copy(args[0], {})
         if qual in TRUSTED_PURE:
             for a in list(args) + list(kwargs.values()):
                 if a.var is None and not a.is_prim():
@@ -671,8 +677,8 @@ class Lowerer:
         v = self.tmp(name.split(".")[-1])
         if rty == UNKNOWN:
             self.emit(("ext", v))
-        else:
-            self.emit(("new", v))
+            return AV(var=v, ty=PUREOBJ)
+        self.emit(("new", v))
         return AV(var=v, ty=rty)
 
     # -- statements
@@ -907,6 +913,62 @@ class Lowerer:
                     self.emit(choice(("skip",), pir))
                     j = min(1, max(j, jp))
             return min(1, j)
+        if isinstance(s, ast.FunctionDef) and not s.decorator_list and not any(
+                isinstance(n, (ast.Yield, ast.YieldFrom, ast.Nonlocal, ast.Global)) for n in ast.walk(s)):
+            # a nested helper: like a lambda, its body may run any number of times with unknown arguments; it is lowered
+            # here, in a loop, reading the enclosing locals as they are now
+            a = s.args
+            if a.vararg or a.kwarg:
+                raise Unsupported("nested function with * / ** parameters")
+            outer = self.frame
+            inner = Frame(outer.fn, self.prog, outer.depth + 1)
+            inner.self_cls = outer.self_cls
+            inner.locals = dict(outer.locals)
+            inner.vars = {}
+            self.push()
+            self.no_split = getattr(self, "no_split", 0) + 1
+            self.frame = inner
+            try:
+                for p_ in a.posonlyargs + a.args + a.kwonlyargs:
+                    v = self.tmp(p_.arg + "@nested")
+                    pty = UNKNOWN
+                    if p_.annotation is not None:
+                        try:
+                            pty = ty_of_annotation(eval(compile(ast.Expression(p_.annotation), "<ann>", "eval"),  # noqa: S307
+                                                        dict(outer.fn.__globals__)), outer.fn.__globals__)
+                        except Exception:  # noqa: BLE001
+                            pty = UNKNOWN
+                    self.emit(("havoc", v) if pty == PRIM else ("ext", v))
+                    inner.locals[p_.arg] = AV(var=v, ty=pty)
+                    inner.vars[p_.arg] = v
+                ir, _ = self.block(s.body)
+                self.emit(ir)
+                if inner.ret is not None and inner.ret.var is None and inner.ret.items is not None:
+                    self.materialise(inner.ret)
+            finally:
+                self.frame = outer
+                self.no_split -= 1
+            body = self.pop()
+            self.emit(("loop", body))
+            outer.locals[s.name] = AV(ty=PRIM, attrs={"__callable__": True})
+            return 0
+        if isinstance(s, ast.Import):
+            for al in s.names:
+                mod_ = importlib.import_module(al.name)
+                top = importlib.import_module(al.name.split(".")[0])
+                fr.locals[al.asname or al.name.split(".")[0]] = self.pyvalue(mod_ if al.asname else top, al.name)
+            return 0
+        if isinstance(s, ast.ImportFrom) and s.level == 0 and s.module:
+            mod_ = importlib.import_module(s.module)
+            for al in s.names:
+                if al.name == "*":
+                    raise Unsupported("from ... import *")
+                try:
+                    val = getattr(mod_, al.name)
+                except AttributeError:
+                    val = importlib.import_module(s.module + "." + al.name)
+                fr.locals[al.asname or al.name] = self.pyvalue(val, al.name)
+            return 0
         if isinstance(s, (ast.Import, ast.ImportFrom, ast.Global, ast.Nonlocal, ast.FunctionDef, ast.ClassDef, ast.With,
                           ast.Delete)):
             if isinstance(s, ast.Delete):
@@ -1341,8 +1403,7 @@ class Lowerer:
             self.no_split -= 1
             self.frame.locals = saved
             self.emit(("loop", body))
-            return AV(ty=PRIM, pyobj=None, has_pyobj=False, bmeth=None, iterkind=None, func=None, display=None, exact=False,
-                      attrs={"__lambda_result__": r.ty if not r.is_prim() else PRIM})
+            return AV(ty=PRIM, attrs={"__callable__": True})
         if isinstance(e, ast.NamedExpr):
             v = self.expr(e.value)
             self.assign(e.target, v)
@@ -1685,6 +1746,10 @@ class Lowerer:
                 self.emit(("load", x, base.var, fid(name)))
                 return AV(var=x, ty=aty)
             raise Unsupported(f"attribute {cls.__name__}.{name} of kind {type(raw).__name__}")
+        if ty == PUREOBJ:
+            x = self.tmp(name)
+            self.emit(("ext", x))
+            return AV(var=x, ty=PUREOBJ)
         if ty == UNKNOWN:
             if name in LIST_MUTATORS or name in LIST_POPS or name in LIST_READERS or name in PURE_METHOD_NAMES or \
                     name in ("model_copy", "model_dump"):
@@ -1838,12 +1903,27 @@ class Lowerer:
             if isinstance(o, types.BuiltinFunctionType) or callable(o) and getattr(o, "__module__", "") in ("builtins", "math", "typing"):
                 return self.builtin(o, args, kwargs, node)
             raise Unsupported(f"call of object {o!r}")
+        if callee.is_prim() and callee.func is None and not callee.has_pyobj and (callee.attrs or {}).get("__callable__"):
+            # a lambda / nested function of this method: its body was lowered where it was written
+            for a in list(args) + list(kwargs.values()):
+                if a.var is None and not a.is_prim():
+                    self.materialise(a)
+            x = self.tmp("called")
+            self.emit(("ext", x))
+            return AV(var=x, ty=UNKNOWN)
         if callee.is_prim() and callee.func is None and not callee.has_pyobj:
             # a method of an immutable value (str.format, float.is_integer, ...)
             for a in list(args) + list(kwargs.values()):
                 if a.var is None and not a.is_prim():
                     self.materialise(a)
             return AV(ty=PRIM)
+        if callee.ty == PUREOBJ and callee.var is not None:
+            for a in list(args) + list(kwargs.values()):
+                if a.var is None and not a.is_prim():
+                    self.materialise(a)
+            x = self.tmp("libcall")
+            self.emit(("ext", x))
+            return AV(var=x, ty=PUREOBJ)
         if callee.ty == UNKNOWN and callee.var is not None:
             raise Unsupported(f"call through a value of unknown type ({ast.unparse(node.func)}) in {fr.fn.__qualname__}")
         raise Unsupported(f"call of {ast.unparse(node.func)}")
